@@ -540,3 +540,268 @@ Proof.
     + apply (Forall_forallb_and clean_node); [exact IH|].
       cbn [clean_node] in Hc. apply andb_prop in Hc. apply Hc.
 Qed.
+
+(* ================================================================ consequences, on the spec *)
+(* ---- the unlimited unrolling: N consecutive copies, copy i under the stack (N, i) :: enclosing *)
+Fixpoint nseq (k : nat) (i : N) : list N :=
+  match k with O => [] | S k' => i :: nseq k' (i + 1)%N end.
+
+Fixpoint unroll (env : cenv) (reps : list rep) (node : tnode) {struct node} : list anode :=
+  let once (cur : option rep) (reps' : list rep) : list anode :=
+    match node with
+    | TGroup els _ =>
+        let items := flat_map (unroll env reps') els in
+        match cur with Some r => attach_repeater items r | None => items end
+    | TElem name attrs value _ self_close els =>
+        leaf_items env reps' name attrs value self_close cur (flat_map (unroll env reps') els)
+    end in
+  match node_rep node with
+  | None => once None reps
+  | Some r0 =>
+      let n := written_count r0 in
+      flat_map (fun i => once (Some (mkRep n i false)) (mkRep n i false :: reps)) (nseq (N.to_nat n) 0%N)
+  end.
+
+Definition once_u (env : cenv) (node : tnode) (cur : option rep) (reps' : list rep) : list anode :=
+  match node with
+  | TGroup els _ =>
+      let items := flat_map (unroll env reps') els in
+      match cur with Some r => attach_repeater items r | None => items end
+  | TElem name attrs value _ self_close els =>
+      leaf_items env reps' name attrs value self_close cur (flat_map (unroll env reps') els)
+  end.
+
+Lemma unroll_unfold env reps node :
+  unroll env reps node =
+  match node_rep node with
+  | None => once_u env node None reps
+  | Some r0 =>
+      let n := written_count r0 in
+      flat_map (fun i => once_u env node (Some (mkRep n i false)) (mkRep n i false :: reps)) (nseq (N.to_nat n) 0%N)
+  end.
+Proof. destruct node; reflexivity. Qed.
+
+(* number of copies all repeaters of a statement complete when nothing stops them *)
+Definition zsum (l : list Z) : Z := fold_right Z.add 0 l.
+Fixpoint total (node : tnode) : Z :=
+  let inner := match node with TElem _ _ _ _ _ els | TGroup els _ => zsum (map total els) end in
+  match node_rep node with
+  | None => inner
+  | Some r0 => Z.of_N (written_count r0) * (1 + inner)
+  end.
+Definition inner_total (node : tnode) : Z := zsum (map total (elements_of' node)).
+
+Lemma total_unfold node :
+  total node = match node_rep node with
+               | None => inner_total node
+               | Some r0 => Z.of_N (written_count r0) * (1 + inner_total node)
+               end.
+Proof. destruct node; reflexivity. Qed.
+
+Lemma written_count_pos r : (1 <= written_count r)%N.
+Proof. unfold written_count. destruct (rcount r =? 0)%N eqn:E; [lia|]. apply N.eqb_neq in E. lia. Qed.
+
+Lemma zsum_nonneg l : Forall (fun z => 0 <= z) l -> 0 <= zsum l.
+Proof. induction 1; cbn [zsum fold_right]; [lia|]. fold (zsum l). lia. Qed.
+
+Lemma total_nonneg : forall node, 0 <= total node.
+Proof.
+  induction node as [a at_ v r s els IH|els r IH] using tnode_ind'; rewrite total_unfold; unfold inner_total; cbn [node_rep elements_of'].
+  - assert (0 <= zsum (map total els)) by (apply zsum_nonneg; apply Forall_map; exact IH).
+    destruct r as [r0|]; [|assumption]. pose proof (written_count_pos r0). nia.
+  - assert (0 <= zsum (map total els)) by (apply zsum_nonneg; apply Forall_map; exact IH).
+    destruct r as [r0|]; [|assumption]. pose proof (written_count_pos r0). nia.
+Qed.
+
+(* ---- guard_enough *)
+Lemma copies_b_enough f fu inner :
+  (forall i b, inner <= b -> f i b = (fu i, b - inner)) -> 0 <= inner ->
+  forall k i b, Z.of_nat k * (1 + inner) <= b ->
+    copies_b f k i b = (flat_map fu (nseq k i), b - Z.of_nat k * (1 + inner)).
+Proof.
+  intros Hf Hin. induction k as [|k IH]; intros i b Hb.
+  - cbn [copies_b nseq flat_map]. f_equal. lia.
+  - rewrite Nat2Z.inj_succ, Z.mul_succ_l in *. cbn [copies_b nseq flat_map].
+    assert (0 <= Z.of_nat k * (1 + inner)) by nia.
+    rewrite Hf by lia.
+    destruct (b - inner - 1 <=? 0) eqn:E.
+    + apply Z.leb_le in E. destruct k as [|k'].
+      * cbn [nseq flat_map]. rewrite app_nil_r. f_equal. lia.
+      * exfalso. rewrite Nat2Z.inj_succ, Z.mul_succ_l in *. nia.
+    + rewrite IH by lia. f_equal. lia.
+Qed.
+
+Lemma list_b_enough env reps : forall els,
+  Forall (fun c => forall reps b, total c <= b -> unroll_b env reps c b = (unroll env reps c, b - total c)) els ->
+  forall b, zsum (map total els) <= b ->
+    list_b (unroll_b env reps) els b = (flat_map (unroll env reps) els, b - zsum (map total els)).
+Proof.
+  induction els as [|c l IH]; intros H b Hb.
+  - cbn [list_b flat_map map zsum fold_right]. f_equal. lia.
+  - inversion H as [|x y Hc Hl]; subst. cbn [map zsum fold_right] in *. fold (zsum (map total l)) in *.
+    pose proof (total_nonneg c).
+    assert (0 <= zsum (map total l)) by (apply zsum_nonneg; apply Forall_map; apply Forall_forall; intros; apply total_nonneg).
+    cbn [list_b flat_map]. rewrite Hc by lia. rewrite IH by (assumption || lia). f_equal. lia.
+Qed.
+
+Lemma once_b_enough env node :
+  Forall (fun c => forall reps b, total c <= b -> unroll_b env reps c b = (unroll env reps c, b - total c)) (elements_of' node) ->
+  forall cur reps b, inner_total node <= b ->
+    once_b env node cur reps b = (once_u env node cur reps, b - inner_total node).
+Proof.
+  intros H cur reps b Hb. unfold inner_total in *.
+  destruct node as [a at_ v r s els|els r]; cbn [once_b once_u elements_of'] in *;
+    rewrite (list_b_enough env reps els H b Hb); reflexivity.
+Qed.
+
+Lemma node_enough env node :
+  Forall (fun c => forall reps b, total c <= b -> unroll_b env reps c b = (unroll env reps c, b - total c)) (elements_of' node) ->
+  forall reps b, total node <= b -> unroll_b env reps node b = (unroll env reps node, b - total node).
+Proof.
+  intros IH reps b Hb. rewrite unroll_b_unfold, unroll_unfold. rewrite total_unfold in *.
+  destruct (node_rep node) as [r0|].
+  - cbv zeta.
+    rewrite (copies_b_enough _ (fun i => once_u env node (Some (mkRep (written_count r0) i false))
+                                              (mkRep (written_count r0) i false :: reps)) (inner_total node)).
+    + rewrite N_nat_Z. reflexivity.
+    + intros i b' Hb'. apply once_b_enough; [exact IH|exact Hb'].
+    + unfold inner_total. apply zsum_nonneg. apply Forall_map. apply Forall_forall. intros; apply total_nonneg.
+    + rewrite N_nat_Z. exact Hb.
+  - apply once_b_enough; [exact IH|exact Hb].
+Qed.
+
+(* budget >= total copies: the result is the unlimited unrolling and the budget drops by exactly
+   the number of copies completed *)
+Theorem unroll_b_enough env : forall node reps b,
+  total node <= b -> unroll_b env reps node b = (unroll env reps node, b - total node).
+Proof.
+  induction node as [a at_ v r s els IH|els r IH] using tnode_ind'; apply node_enough; exact IH.
+Qed.
+
+(* ---- guard_exhausted: with no budget left every repeater yields exactly its first copy *)
+Fixpoint unroll_one (env : cenv) (reps : list rep) (node : tnode) {struct node} : list anode :=
+  let once (cur : option rep) (reps' : list rep) : list anode :=
+    match node with
+    | TGroup els _ =>
+        let items := flat_map (unroll_one env reps') els in
+        match cur with Some r => attach_repeater items r | None => items end
+    | TElem name attrs value _ self_close els =>
+        leaf_items env reps' name attrs value self_close cur (flat_map (unroll_one env reps') els)
+    end in
+  match node_rep node with
+  | None => once None reps
+  | Some r0 => let n := written_count r0 in once (Some (mkRep n 0 false)) (mkRep n 0 false :: reps)
+  end.
+
+Definition once_one (env : cenv) (node : tnode) (cur : option rep) (reps' : list rep) : list anode :=
+  match node with
+  | TGroup els _ =>
+      let items := flat_map (unroll_one env reps') els in
+      match cur with Some r => attach_repeater items r | None => items end
+  | TElem name attrs value _ self_close els =>
+      leaf_items env reps' name attrs value self_close cur (flat_map (unroll_one env reps') els)
+  end.
+
+Lemma unroll_one_unfold env reps node :
+  unroll_one env reps node =
+  match node_rep node with
+  | None => once_one env node None reps
+  | Some r0 => let n := written_count r0 in once_one env node (Some (mkRep n 0 false)) (mkRep n 0 false :: reps)
+  end.
+Proof. destruct node; reflexivity. Qed.
+
+(* number of repeated units of a statement (each then completes exactly one copy) *)
+Fixpoint repeaters (node : tnode) : Z :=
+  let inner := match node with TElem _ _ _ _ _ els | TGroup els _ => zsum (map repeaters els) end in
+  match node_rep node with None => inner | Some _ => 1 + inner end.
+Definition inner_repeaters (node : tnode) : Z := zsum (map repeaters (elements_of' node)).
+Lemma repeaters_unfold node :
+  repeaters node = match node_rep node with None => inner_repeaters node | Some _ => 1 + inner_repeaters node end.
+Proof. destruct node; reflexivity. Qed.
+
+Lemma repeaters_nonneg : forall node, 0 <= repeaters node.
+Proof.
+  induction node as [a at_ v r s els IH|els r IH] using tnode_ind'; rewrite repeaters_unfold; unfold inner_repeaters; cbn [node_rep elements_of'];
+    (assert (0 <= zsum (map repeaters els)) by (apply zsum_nonneg; apply Forall_map; exact IH));
+    destruct r; lia.
+Qed.
+
+Lemma list_b_exhausted env reps : forall els,
+  Forall (fun c => forall reps b, b <= 0 -> unroll_b env reps c b = (unroll_one env reps c, b - repeaters c)) els ->
+  forall b, b <= 0 ->
+    list_b (unroll_b env reps) els b = (flat_map (unroll_one env reps) els, b - zsum (map repeaters els)).
+Proof.
+  induction els as [|c l IH]; intros H b Hb.
+  - cbn [list_b flat_map map zsum fold_right]. f_equal. lia.
+  - inversion H as [|x y Hc Hl]; subst. cbn [map zsum fold_right]. fold (zsum (map repeaters l)).
+    pose proof (repeaters_nonneg c).
+    cbn [list_b flat_map]. rewrite Hc by lia. rewrite IH by (assumption || lia). f_equal. lia.
+Qed.
+
+Lemma node_exhausted env node :
+  Forall (fun c => forall reps b, b <= 0 -> unroll_b env reps c b = (unroll_one env reps c, b - repeaters c)) (elements_of' node) ->
+  forall reps b, b <= 0 -> unroll_b env reps node b = (unroll_one env reps node, b - repeaters node).
+Proof.
+  intros IH reps b Hb. rewrite unroll_b_unfold, unroll_one_unfold, repeaters_unfold.
+  assert (Honce : forall cur reps' b', b' <= 0 ->
+            once_b env node cur reps' b' = (once_one env node cur reps', b' - inner_repeaters node)).
+  { intros cur reps' b' Hb'. unfold inner_repeaters.
+    destruct node as [a at_ v r s els|els r]; cbn [once_b once_one elements_of'] in *;
+      rewrite (list_b_exhausted env reps' els IH b' Hb'); reflexivity. }
+  destruct (node_rep node) as [r0|]; [|apply Honce; exact Hb].
+  cbv zeta. pose proof (written_count_pos r0) as Hpos.
+  destruct (N.to_nat (written_count r0)) as [|k] eqn:Ek; [lia|].
+  cbn [copies_b]. rewrite Honce by exact Hb.
+  assert (0 <= inner_repeaters node).
+  { unfold inner_repeaters. apply zsum_nonneg. apply Forall_map. apply Forall_forall. intros; apply repeaters_nonneg. }
+  destruct (b - inner_repeaters node - 1 <=? 0) eqn:E; [f_equal; lia|]. apply Z.leb_gt in E. lia.
+Qed.
+
+Theorem unroll_b_exhausted env : forall node reps b,
+  b <= 0 -> unroll_b env reps node b = (unroll_one env reps node, b - repeaters node).
+Proof.
+  induction node as [a at_ v r s els IH|els r IH] using tnode_ind'; apply node_exhausted; exact IH.
+Qed.
+
+(* ---- the budget drops by at most the unlimited number of copies, and never grows *)
+Lemma copies_b_ge f inner :
+  (forall i b, b - inner <= snd (f i b)) -> 0 <= inner ->
+  forall k i b, b - Z.of_nat k * (1 + inner) <= snd (copies_b f k i b).
+Proof.
+  intros Hf Hin. induction k as [|k IH]; intros i b; [cbn; lia|].
+  rewrite Nat2Z.inj_succ, Z.mul_succ_l. cbn [copies_b].
+  specialize (Hf i b). destruct (f i b) as [x b1]. cbn [snd] in Hf.
+  assert (0 <= Z.of_nat k * (1 + inner)) by nia.
+  destruct (b1 - 1 <=? 0); [cbn [snd]; lia|].
+  specialize (IH (i + 1)%N (b1 - 1)). destruct (copies_b f k (i + 1)%N (b1 - 1)) as [y b3]. cbn [snd] in *. lia.
+Qed.
+
+Lemma list_b_ge env reps : forall els,
+  Forall (fun c => forall reps b, b - total c <= snd (unroll_b env reps c b)) els ->
+  forall b, b - zsum (map total els) <= snd (list_b (unroll_b env reps) els b).
+Proof.
+  induction els as [|c l IH]; intros H b; [cbn; lia|].
+  inversion H as [|x y Hc Hl]; subst. cbn [map zsum fold_right list_b]. fold (zsum (map total l)).
+  specialize (Hc reps b). destruct (unroll_b env reps c b) as [x b1]. cbn [snd] in Hc.
+  specialize (IH Hl b1). destruct (list_b (unroll_b env reps) l b1) as [y b2]. cbn [snd] in *. lia.
+Qed.
+
+Theorem unroll_b_ge env : forall node reps b, b - total node <= snd (unroll_b env reps node b).
+Proof.
+  induction node as [a at_ v r s els IH|els r IH] using tnode_ind'; intros reps b;
+    rewrite unroll_b_unfold, total_unfold; unfold inner_total; cbn [node_rep elements_of'].
+  - assert (Ho : forall cur reps' b', b' - zsum (map total els) <= snd (once_b env (TElem a at_ v r s els) cur reps' b')).
+    { intros cur reps' b'. cbn [once_b]. pose proof (list_b_ge env reps' els IH b') as Hl.
+      destruct (list_b (unroll_b env reps') els b') as [x b1]. exact Hl. }
+    destruct r as [r0|]; [|apply Ho]. cbv zeta.
+    rewrite <- (N_nat_Z (written_count r0)). apply (copies_b_ge _ (zsum (map total els))).
+    + intros i b'. apply Ho.
+    + apply zsum_nonneg. apply Forall_map. apply Forall_forall. intros; apply total_nonneg.
+  - assert (Ho : forall cur reps' b', b' - zsum (map total els) <= snd (once_b env (TGroup els r) cur reps' b')).
+    { intros cur reps' b'. cbn [once_b]. pose proof (list_b_ge env reps' els IH b') as Hl.
+      destruct (list_b (unroll_b env reps') els b') as [x b1]. exact Hl. }
+    destruct r as [r0|]; [|apply Ho]. cbv zeta.
+    rewrite <- (N_nat_Z (written_count r0)). apply (copies_b_ge _ (zsum (map total els))).
+    + intros i b'. apply Ho.
+    + apply zsum_nonneg. apply Forall_map. apply Forall_forall. intros; apply total_nonneg.
+Qed.
